@@ -62,3 +62,15 @@ Print Assumptions C01_ristretto_roundtrip.
 (* non-vacuity: the base point is a valid message point *)
 Example C01_ristretto_nonvacuous : valid (pt_base K_ref).
 Proof. exact (valid_base K_ref). Qed.
+
+(* ristretto backend, the whole API path at the byte level, no hypothesis: for every 30-byte plaintext on which Ctx::encode
+   succeeds, every key and every randomness, decode(decrypt(encrypt(encode data))) = data, and the decrypted element
+   serialises to exactly the bytes of the encoded one. Uses: the group law, ENCODE(DECODE bs) = bs, and that ENCODE depends
+   only on the curve point (Proofs/RistrettoEncode.v: compress_aff). *)
+From Strand Require Import Model.Codec Proofs.CodecP Proofs.RistrettoCanon Proofs.RistrettoEncode.
+Theorem C01_ristretto_api_roundtrip : forall (K : Kernel) (PM : PMul) data m sk r,
+  bytes_ok data -> length data = 30%nat -> r_encode K data = Ok m ->
+  exists d, decrypt (RB K PM) sk (encrypt_with_randomness (RB K PM) (pk_of_sk (RB K PM) sk) m r) = Ok d /\
+            r_decode K d = data /\ b_ser_e (RB K PM) d = b_ser_e (RB K PM) m.
+Proof. exact rb_api_roundtrip. Qed.
+Print Assumptions C01_ristretto_api_roundtrip.
